@@ -1661,6 +1661,9 @@ class Interp:
             return [(st, ('new', callee, args, kws))]
         if kind == 'ext':
             short = callee.split('.')[-1]
+            if callee == 'getattr' and len(args) >= 2 and args[1][0] == 'const' and isinstance(args[1][1], str):
+                r = self.an.on_attr(self, e, args[0], args[1][1], st, fr)
+                return [(st, r if r is not None else T.cap(('attr', args[0], args[1][1]), 'getattr'))]
             if short in ('set', 'list', 'BestSet', 'tuple', 'frozenset', 'dict', 'OrderedSet') and not args and not kws:
                 return [(st, EMPTY)]
             if short in ('set', 'list', 'tuple', 'BestSet', 'frozenset', 'sorted', 'OrderedSet') and len(args) == 1:
